@@ -43,6 +43,15 @@ func seq(tier string, sh *vkit.Shard, p *vkit.Part) {
 			p.Count("debug ms "+c.Name, int(time.Since(t0).Milliseconds()))
 		}
 	}
+	// the extended alphabet: caller reslices + growth relative to len and cap (rel.go)
+	for _, c := range extConfigs(tier) {
+		depth, split := extDepthFor(c, tier)
+		t0 := time.Now()
+		search(c, depth, split, sh, p, deadline)
+		if os.Getenv("VERIF_C20_TIMING") != "" {
+			p.Count("debug ms "+c.Name, int(time.Since(t0).Milliseconds()))
+		}
+	}
 	t0 := time.Now()
 	giant(tier, sh, p, deadline)
 	if os.Getenv("VERIF_C20_TIMING") != "" {
@@ -71,6 +80,20 @@ func depthFor(c *acfg, tier string) (depth, split int) {
 	}
 }
 
+// extDepthFor: bounds of the extended-alphabet search (rel.go).
+func extDepthFor(c *acfg, tier string) (depth, split int) {
+	if tier == "thorough" {
+		if c.Kind == "aligned" {
+			return 4, 2
+		}
+		return 5, 3
+	}
+	if c.Kind == "aligned" {
+		return 3, 2
+	}
+	return 4, 2
+}
+
 // bounds describes the enumerated space of both tiers for the evidence file.
 func bounds() map[string]interface{} {
 	out := map[string]interface{}{}
@@ -80,6 +103,16 @@ func bounds() map[string]interface{} {
 			d, s := depthFor(c, tier)
 			m[c.Name] = map[string]interface{}{"max_program_length": d, "split_level": s, "sizes": c.Sizes, "append_counts": c.Ks,
 				"max_live_handles": maxHandles, "pool_answers": "all (every Get on a non-empty pool: pooled object / new object)"}
+		}
+		for _, c := range extConfigs(tier) {
+			d, s := extDepthFor(c, tier)
+			rm := "any number"
+			if c.RelMax > 0 {
+				rm = fmt.Sprint(c.RelMax)
+			}
+			m[c.Name] = map[string]interface{}{"max_program_length": d, "split_level": s, "sizes": c.Sizes, "append_counts": c.Ks,
+				"caller_reslices": "to 0 and to cap", "relative_target_set": relSetName(c.RelWide),
+				"relative_ops_per_program": rm, "max_live_handles": maxHandles, "pool_answers": "all"}
 		}
 		n := 0
 		for _, fam := range giantPrograms(tier) {
